@@ -270,6 +270,26 @@ def r3(ctx):
                 f'({len(bad)} of {len(SKY_PROBES)} probes differ)', f.loc())
     else:
         ctx.ok(f.qualname.split(':')[1], f'{len(SKY_PROBES)} probes: r/d suffixes, hms/dms, ":" is hours iff even index and equatorial frame')
+    # the dispatcher in front of the two coordinate lexers hands (token, frame, index) on unchanged: pixel regions take
+    # the pixel lexer, sky regions the sky lexer with the frame and the parameter index
+    d = lexers.get('_parse_coord')
+    if d is not None:
+        bad = []
+        for (tok, frame, idx), want, why in SKY_PROBES:
+            got = _outcome(Evaluator(m).run(d, [Const('sky'), Const(tok), Const(frame), sp.Integer(idx)], {}))
+            g = 'raises' if got == 'raises' else (_angle_norm(got) if not isinstance(got, str) else ('?', got))
+            ok = g == want or (isinstance(want, tuple) and want[0] == 'num' and g[0] == 'num' and abs(g[1] - want[1]) < 1e-9)
+            if not ok:
+                bad.append((('sky', tok, frame, idx), g, want))
+        for tok, want in PIXEL_PROBES:
+            got = _outcome(Evaluator(m).run(d, [Const('pixel'), Const(tok), Const('image'), sp.Integer(0)], {}))
+            if not (is_num(got) and got.is_number and abs(float(got) - want) < 1e-12):
+                bad.append((('pixel', tok, 'image', 0), show(got, 60) if not isinstance(got, str) else got, want))
+        if bad:
+            ctx.bad('_parse_coord', 'dispatch', f'_parse_coord{bad[0][0]} gives {bad[0][1]}; the lexers give {bad[0][2]} '
+                    f'({len(bad)} probes differ): region type, frame or parameter index do not reach the right lexer', d.loc())
+        else:
+            ctx.ok('_parse_coord', 'pixel -> pixel lexer; sky -> sky lexer with frame and parameter index unchanged')
 
 
 SHAPE_CASES = [('point', 2), ('text', 2), ('circle', 3), ('line', 4), ('polygon', 6), ('ellipse', 5), ('box', 5),
@@ -333,7 +353,17 @@ def _coord_pair(v, i0):
         a, b = v.args[0], v.args[1]
     else:
         return False
-    return _lex(a) == (i0, 'coord', 1) and _lex(b) == (i0 + 1, 'coord', 1)
+    return _lex(a) == (i0, 'coord', 1) and _lex(b) == (i0 + 1, 'coord', 1) and _idx_arg_ok(a, i0) and _idx_arg_ok(b, i0 + 1)
+
+
+def _idx_arg_ok(t, i):
+    """the coordinate lexer is told the position of the token among the parameters (its parity decides longitude vs
+    latitude for a:b:c values): the integer argument of the lexer call, when there is one, is the token's own index."""
+    inner, _ = ds9.strip_factor(t)
+    if isinstance(inner, App) and inner.name.startswith('call:_parse_'):
+        nums = [a for a in inner.args if is_num(a)]
+        return all(a.is_number and int(a) == i for a in nums) if nums else True
+    return True
 
 
 def _template_check(m, shape, rt, n, regs):
@@ -358,7 +388,9 @@ def _template_check(m, shape, rt, n, regs):
         else:
             xs = ys = None
         ok = isinstance(xs, Tup) and isinstance(ys, Tup) and [_lex(i)[:2] for i in xs.items] == [(k, 'coord') for k in range(0, n, 2)] \
-            and [_lex(i)[:2] for i in ys.items] == [(k, 'coord') for k in range(1, n, 2)]
+            and [_lex(i)[:2] for i in ys.items] == [(k, 'coord') for k in range(1, n, 2)] \
+            and all(_idx_arg_ok(i, k) for i, k in zip(xs.items, range(0, n, 2))) \
+            and all(_idx_arg_ok(i, k) for i, k in zip(ys.items, range(1, n, 2)))
         if not ok:
             probs.append('polygon vertices are not alternating x,y coordinates')
     if shape in ('ellipse', 'box') and n == 4:
